@@ -72,6 +72,11 @@ type Reply struct {
 	Delay        time.Duration // sleep before replying
 	Unhandled    bool          // handler did not recognise the statement: use the default
 	MidStreamErr int           // if >0: send an ERR packet instead of row number MidStreamErr (1-based)
+	// More, if set, are further results of the SAME command (a multi-result reply, as for CALL or a forwarded
+	// multi-statement text): this reply and every reply of More but the last carry SERVER_MORE_RESULTS_EXISTS in
+	// their OK/EOF status; an ERR reply ends the sequence. Only Err/Result/Affected/InsertID/MidStreamErr of the
+	// further replies are used.
+	More []Reply
 }
 
 // SQLErr is a MySQL error.
@@ -115,6 +120,7 @@ type Conn struct {
 	UserVars   map[string]string
 	closed     int32
 	Killed     int32
+	more       bool // the packet being written is followed by another result of the same command
 }
 
 // Server is one simulated MySQL instance.
@@ -345,6 +351,9 @@ func (c *Conn) status() uint16 {
 	}
 	if c.InTrans {
 		st |= StatusInTrans
+	}
+	if c.more {
+		st |= StatusMoreResults
 	}
 	return st
 }
@@ -616,53 +625,71 @@ func (c *Conn) sendReply(pre ConnState, kind, sql string, r Reply) bool {
 		return false
 	}
 	bw := bufio.NewWriterSize(c.c, 256*1024)
-	switch {
-	case r.Err != nil:
-		c.srv.log(c, kind, sql, fmt.Sprintf("err:%d", r.Err.Code), pre, vars)
-		c.writePacket(bw, errPacket(r.Err))
-	case r.Result != nil:
-		c.srv.log(c, kind, sql, "ok", pre, vars)
-		rs := r.Result
-		c.writePacket(bw, lenenc(nil, uint64(len(rs.Cols))))
-		for _, col := range rs.Cols {
-			c.writePacket(bw, colDef(col))
-		}
-		c.writePacket(bw, c.eofPacket())
-		n := len(rs.Rows)
-		if rs.RowGen != nil {
-			n = rs.NRows
-		}
-		aborted := false
-		for i := 0; i < n; i++ {
-			if r.MidStreamErr > 0 && i+1 == r.MidStreamErr {
-				c.writePacket(bw, errPacket(&SQLErr{Code: 1317, State: "70100", Message: "Query execution was interrupted"}))
-				aborted = true
-				break
+	replies := append([]Reply{r}, r.More...)
+	defer func() { c.more = false }()
+	for ri, r := range replies {
+		c.more = ri < len(replies)-1
+		last := false
+		switch {
+		case r.Err != nil:
+			if ri == 0 {
+				c.srv.log(c, kind, sql, fmt.Sprintf("err:%d", r.Err.Code), pre, vars)
 			}
-			var row [][]byte
+			last = true
+			c.writePacket(bw, errPacket(r.Err))
+		case r.Result != nil:
+			if ri == 0 {
+				c.srv.log(c, kind, sql, "ok", pre, vars)
+			}
+			rs := r.Result
+			c.writePacket(bw, lenenc(nil, uint64(len(rs.Cols))))
+			for _, col := range rs.Cols {
+				c.writePacket(bw, colDef(col))
+			}
+			c.writePacket(bw, c.eofPacket())
+			n := len(rs.Rows)
 			if rs.RowGen != nil {
-				row = rs.RowGen(i)
-			} else {
-				row = rs.Rows[i]
+				n = rs.NRows
 			}
-			var p []byte
-			for _, cell := range row {
-				if cell == nil {
-					p = append(p, 0xfb)
+			aborted := false
+			for i := 0; i < n; i++ {
+				if r.MidStreamErr > 0 && i+1 == r.MidStreamErr {
+					c.writePacket(bw, errPacket(&SQLErr{Code: 1317, State: "70100", Message: "Query execution was interrupted"}))
+					aborted = true
+					break
+				}
+				var row [][]byte
+				if rs.RowGen != nil {
+					row = rs.RowGen(i)
 				} else {
-					p = lenencStr(p, cell)
+					row = rs.Rows[i]
+				}
+				var p []byte
+				for _, cell := range row {
+					if cell == nil {
+						p = append(p, 0xfb)
+					} else {
+						p = lenencStr(p, cell)
+					}
+				}
+				if err := c.writePacket(bw, p); err != nil {
+					return false
 				}
 			}
-			if err := c.writePacket(bw, p); err != nil {
-				return false
+			if !aborted {
+				c.writePacket(bw, c.eofPacket())
+			} else {
+				last = true
 			}
+		default:
+			if ri == 0 {
+				c.srv.log(c, kind, sql, "ok", pre, vars)
+			}
+			c.writePacket(bw, c.okPacket(r.Affected, r.InsertID))
 		}
-		if !aborted {
-			c.writePacket(bw, c.eofPacket())
+		if last {
+			break
 		}
-	default:
-		c.srv.log(c, kind, sql, "ok", pre, vars)
-		c.writePacket(bw, c.okPacket(r.Affected, r.InsertID))
 	}
 	if bw.Flush() != nil {
 		return false
